@@ -5,8 +5,8 @@ import os
 from lib.coqterm import cbytes, clist, cnat, copt
 
 ID = "C17"
-QUICK_N = 1500
-THOROUGH_N = 24000
+QUICK_N = 1200
+THOROUGH_N = 20000
 SHARD = 60
 COQ_PRELUDE = "From MV Require Import Model.CertStore.\n"
 TRANSLATORS = ["certs_const"]
@@ -70,11 +70,15 @@ def _request(rng, adv):
 
 def _add(rng, adv):
     k = rng.weighted([(3, 0), (4, 1), (2, 2)])
-    pool = NAMES[:-1] if adv else PLAIN + ["*.b", "*.a.b", "*", "*.c"]
+    pool = NAMES[:-1] if adv else PLAIN + ["*.b", "*.a.b", "*.c", "*.x.a.b"]
     names = [rng.choice(pool) for _ in range(k)]
     if adv and rng.chance(0.3):
         names.append("")
-    return {"o": "add", "i": rng.below(len(POOL)), "names": names}
+    if rng.chance(0.05):
+        names.append("*")
+    # the last pool certificate carries DNSName("*") (serves everything afterwards): keep it rare
+    i = len(POOL) - 1 if rng.chance(0.05) else rng.below(len(POOL) - 1)
+    return {"o": "add", "i": i, "names": names}
 
 
 def _history(rng, big):
@@ -326,13 +330,22 @@ def _tags(case, obs):
     t = set()
     seen = set()
     prev_ngen = 0
+    reg = set()
     for o, r in zip(case["ops"], obs["ops"]):
+        if o["o"] == "add":
+            reg |= set(([r["cn"]] if r["cn"] else []) + [s[1] for s in r["alt"]] + list(o["names"]))
         if o["o"] == "get":
             ret = r["ret"]
+            pot = _potential(o["cn"], o["sans"])
+            hit = next((n for n in pot if n in reg), None)
+            if hit == "":
+                t.add("empty-name-first")
             if ret is None:
                 t.add("valueerror")
             elif ret[0] == "c":
                 t.add("custom-hit")
+                exact = [o["cn"]] + [_san_text(s) for s in o["sans"]]
+                t.add("custom-hit:star" if hit == "*" else "custom-hit:exact" if hit in exact else "custom-hit:wildcard")
             elif ret[1] in seen:
                 t.add("cache-hit")
             else:
